@@ -86,7 +86,10 @@ def gen(tape, for_c10=False):
       ops.append(['log'])
   return {'meas': meas, 'ops': ops, 'pre_diag': tape.chance(400, 'pre_diag'), 'pre_diag_internal': tape.chance(400, 'pre_diag_internal'), 'pre_attach': tape.chance(500, 'pre_attach'), 'allow_unset': tape.chance(200, 'allow_unset'),
           'inline_attachments': tape.chance(600, 'inline'), 'allow_nan': tape.chance(200, 'allow_nan'),
-          'watcher': tape.chance(300, 'watcher') if for_c10 else False}
+          'watcher': tape.chance(300, 'watcher') if for_c10 else False,
+          # the same Test executed once before the observed run; in that earlier run the
+          # pre-diagnosis result exists (conditional validators active), in the observed one it does not
+          'prior_run': (not for_c10) and tape.chance(250, 'prior_run')}
 
 
 def make_validator(v):
@@ -121,9 +124,10 @@ def build(ctx, spec, sink, hooks):
     ml.append(mm)
   phase = htf.PhaseOptions(requires_state=True)(htf.measures(*ml)(mbodies.make_meas_phase(ctx, spec, hooks)))
   nodes = [phase]
-  if spec['pre_diag']:
+  if spec['pre_diag'] or spec.get('prior_run'):
     names = [op[1] for op in spec['ops'] if op[0] == 'attach'] if spec.get('pre_attach') else []
-    nodes.insert(0, mbodies.make_diag_phase(ctx, spec.get('pre_diag_internal', False), names))
+    nodes.insert(0, mbodies.make_diag_phase(ctx, spec.get('pre_diag_internal', False), names,
+                                            first_run_only=bool(spec.get('prior_run'))))
   test = htf.Test(*nodes, test_name='wmeas')
   test.add_output_callbacks(lambda rec: sink.append(rec))
   return test
@@ -263,6 +267,8 @@ def run(tape, for_c10):
   from workloads import bodies
   env.hygiene()
   spec = gen(tape, for_c10)
+  if spec.get('prior_run'):
+    spec['pre_diag'] = False   # (for the observed, second run)
   exp = model(spec)
   knobs = core.Knobs(p_sync=tape.pick([0, 100], 'p_sync'), gap_mean=tape.pick([0, 0, 60], 'gap'), max_steps=800000,
                      max_time=300.0)
@@ -335,6 +341,10 @@ def run(tape, for_c10):
           wt = threading.Thread(target=watch, name='watcher')
           wt.daemon = True
           wt.start()
+        if spec.get('prior_run'):
+          test.execute()
+          obs['log_from'] = len(sim.log)
+          obs['prior_run'] = True
         obs['ret'] = test.execute()
         if spec['watcher']:
           wout['done'] = True
@@ -348,4 +358,4 @@ def run(tape, for_c10):
     if spec['allow_unset']:
       CONF.reset()
     bodies.CURRENT.pop('', None)
-  return sim, spec, exp, (sink[0] if sink else None), obs, failed
+  return sim, spec, exp, (sink[-1] if sink and len(sink) == (2 if spec.get('prior_run') else 1) else None), obs, failed
